@@ -593,9 +593,9 @@ class C15(Check):
         "continuity at a reversal point is checked through the one-sided limit extrapolated from three probes "
         "1e-7 apart and only where those probes lie on one linear piece",
     ]
-    EXAMPLES = {"quick": 200, "thorough": 3000}
+    EXAMPLES = {"quick": 200, "thorough": 2000}
     MIN_EVALS = {"quick": 600, "thorough": 8000}
-    TIME_CAP = {"quick": 150, "thorough": 1100}
+    TIME_CAP = {"quick": 150, "thorough": 1000}
     LEVEL_TEXT = ("Generated-deck search with an independent table model and metamorphic relations: every table row "
                   "and a 201-point saturation grid per curve are compared with a piecewise-linear model of the typed "
                   "numbers; family II decks and ENDSCALE decks restating the table's end-points must reproduce the "
